@@ -52,6 +52,7 @@ def build(u):
     u.spec('mappings_enc.rs')
     u.spec('bits.rs')
     u.spec('rmi_enc.rs')
+    u.spec('rmi_inverse.rs')
     f = u.get_fn('src/vlq.rs', 'encode_vlq')
     u.import_fn(f, 'vlq::encode_vlq', 'u1_vlq.ctr', 'u1_vlq')
 
